@@ -4,8 +4,10 @@ Driver.tla is the specification of the budget protocol (database entries, evalua
 new-iteration listeners, termination causes, result, listener removal, sequential DOE loop, composite
 algorithms that swallow a stop) with the optimization algorithm as an unconstrained environment.  TLC
 checks it exhaustively on small constants (TypeOK, Budget, BudgetTight, CounterExact, CounterFinal,
-AlwaysResult, NoListenerLeak, DoeOrder) and documents the two configurations in which the call budget has
-no mechanism (Jacobian-only requests that are not stored; no database).
+AlwaysResult, NoListenerLeak, DoeOrder), with Jacobians stored or not (environment assumption
+DriverCompletesPoint, which includes the algorithms that ask a Jacobian before the value at a new point), and
+documents the two configurations in which the call budget has no mechanism (Jacobian-only requests that are
+not stored; no database).
 
 Binding
   code -> spec (main): every algorithm of OptimizationLibraryFactory and DOELibraryFactory that runs
@@ -13,7 +15,13 @@ Binding
     region in the objective or in a constraint / raising objective / integer variable; linear problems for
     the linear solvers) x budgets {1,2,3,5,10} x normalisation on/off x one or two consecutive executions
     (counter reset or not, same or fresh library instance) + variants (no database, Jacobians not stored,
-    KKT tolerance, loose x/f tolerances, time limit, finite differences).  The recorder (c03_rec.py) logs the
+    unrounded integers, KKT tolerance, loose x/f tolerances, time limit, finite differences); Jacobians not
+    stored x every gradient-based algorithm x problem classes x budgets x normalisation x executions (the
+    gradient-first algorithms - NLopt - meet the budget test on the Jacobian side only).  The quick tier runs
+    every (algorithm, problem class), every algorithm with each value of the settings that change the
+    evaluation path (normalize_design_space, use_database, store_jacobian, round_ints), the gradient-based
+    algorithms with Jacobians not stored (budgets 1 and 3) and a seeded sample of the rest.  Every case runs in
+    a forked child that is killed after a CPU-time limit.  The recorder (c03_rec.py) logs the
     original calls from inside the wrapped user callables, stores / new iterations from public database
     listeners registered before the driver's own, counter and len(database) snapshots, the stop class, the
     result and the listeners left on the database.  DriverTrace.tla validates every trace: each event must be
@@ -36,15 +44,15 @@ from . import c03_rec as R
 
 INVS = ["TypeOK", "Budget", "BudgetTight", "CounterExact", "CounterFinal", "AlwaysResult", "NoListenerLeak",
         "DoeOrder", "MineClean", "RejectClean"]
-ACTIONS = ("Execute", "PreRunDone", "AskOwn", "OrigCall", "Store", "NewIter", "NextSample", "AlgoReturn",
+ACTIONS = ("Execute", "PreRunDone", "AskOwn", "AskAt", "AskJacFirst", "OrigCall", "Store", "NewIter", "NextSample", "AlgoReturn",
            "BuildResult", "ClearListeners", "PostRun", "SeedEmpty")
 
 
 def model_cfg(*, points=2, nfuncs=2, maxexec=2, maxn=2, nxs="{2}", usedb="{TRUE}", storejac="{TRUE}",
-              nanpt=True, assume=False, composites="{FALSE}", kkts="{TRUE}", obss="{FALSE}", switch=False, invs=INVS, extra=""):
+              nanpt=True, assume="none", composites="{FALSE}", kkts="{TRUE}", obss="{FALSE}", switch=False, invs=INVS, extra=""):
     s = "CONSTANTS\n"
     s += f" Points = {{{', '.join(str(i) for i in range(1, points + 1))}}}\n NFuncs = {nfuncs}\n"
-    s += f" MaxExec = {maxexec}\n AssumeValueFirst = {'TRUE' if assume else 'FALSE'}\n MaxN = {maxn}\n"
+    s += f" MaxExec = {maxexec}\n EnvAssumption = \"{assume}\"\n MaxN = {maxn}\n"
     s += f" NXs = {nxs}\n UseDbs = {usedb}\n StoreJacs = {storejac}\n WithNanPt = {'TRUE' if nanpt else 'FALSE'}\n"
     s += f" Composites = {composites}\n Kkts = {kkts}\n Obss = {obss}\n Switch = {'TRUE' if switch else 'FALSE'}\n"
     s += "SPECIFICATION Spec\nCHECK_DEADLOCK FALSE\n"
@@ -54,7 +62,7 @@ def model_cfg(*, points=2, nfuncs=2, maxexec=2, maxn=2, nxs="{2}", usedb="{TRUE}
 
 
 def trace_cfg(lenient):
-    return ("CONSTANTS\n Points = {1}\n NFuncs = 1\n MaxExec = 99\n AssumeValueFirst = FALSE\n MaxN = 1\n"
+    return ("CONSTANTS\n Points = {1}\n NFuncs = 1\n MaxExec = 99\n EnvAssumption = \"none\"\n MaxN = 1\n"
             " NXs = {2}\n UseDbs = {TRUE}\n StoreJacs = {TRUE}\n WithNanPt = FALSE\n Composites = {FALSE}\n Kkts = {TRUE}\n Obss = {FALSE}\n Switch = TRUE\n"
             f" Lenient = {'TRUE' if lenient else 'FALSE'}\n"
             "INIT TInit\nNEXT Next2\nCONSTRAINT Reach\nPOSTCONDITION Accepted\nCHECK_DEADLOCK FALSE\n")
@@ -77,6 +85,8 @@ BUDGETS = (1, 2, 3, 5, 10)
 COMPOSITE = ("MultiStart", "Augmented_Lagrangian_order_0", "Augmented_Lagrangian_order_1")
 SUBLEVEL_CALLS = ("Augmented_Lagrangian_order_0", "Augmented_Lagrangian_order_1")
 NO_OWN_STOP = ("DUAL_ANNEALING", "SHGO", "DIFFERENTIAL_EVOLUTION")
+W = int(os.environ.get("C03_TLC_WORKERS", "8"))       # TLC workers of the exhaustive runs (test runs: fewer)
+SETTING_VARIANTS = ("nodb", "nojac", "noround")     # use_database / store_jacobian / round_ints = False
 MIN_BUDGET = {"MultiStart": 3}   # documented: max_iter must exceed n_start (2 here)
 
 
@@ -106,7 +116,8 @@ def opt_cases(ck: Check, fo):
             kinds = [k for k in kinds if k != "int"]      # its sub-algorithm (SLSQP) does not take integers
         linear = bool(d.for_linear_problems) or algo == "Scipy_MILP"
         if linear:
-            kinds = [k for k in kinds if k in ("unc", "ineq", "eq")]
+            # (integer variables for the MILP solver: rounded or not, round_ints)
+            kinds = [k for k in kinds if k in ("unc", "ineq", "eq") or (k == "int" and d.handle_integer_variables)]
         for k in kinds:
             cases.append((algo, k, linear, bool(d.require_gradient)))
     return cases, skipped
@@ -143,6 +154,8 @@ def record_opt(fo, tid, algo, kind, linear, grad, n, norm, second, variant, rng)
         st["use_database"] = False
     if variant == "nojac":
         st["store_jacobian"] = False
+    if variant == "noround":
+        st["round_ints"] = False
     if variant == "kkt" and grad:
         st["kkt_tol_abs"] = 1e-3
     if variant == "tol":
@@ -181,21 +194,24 @@ def record_doe(fd, tid, algo, kind, n, norm, second, variant, rng):
     if st is None:
         return None
     st["normalize_design_space"] = norm
-    grad = variant == "jac"
+    grad = variant in ("jac", "nojac")
+    more = {}
     if grad:
-        st["eval_jac"] = True
+        more["eval_jac"] = True
     if variant == "nodb":
-        st["use_database"] = False
+        more["use_database"] = False
+    if variant == "nojac":
+        more["store_jacobian"] = False
+    if variant == "noround":
+        more["round_ints"] = False
+    st.update(more)
     lib = fd.create(algo)
     meta = dict(kind="doe", algo=algo, problem=kind, N=n, normalize=norm, second=second, variant=variant)
     _, exc = R.execute(rec, lib, "doe", st, grad=grad)
     if second and exc is None:
         st2 = doe_settings(algo, fd, n, rng)
         st2["normalize_design_space"] = norm
-        if grad:
-            st2["eval_jac"] = True
-        if variant == "nodb":
-            st2["use_database"] = False
+        st2.update(more)
         if second == "noreset":
             st2["reset_iteration_counters"] = False
         R.execute(rec, lib if tid % 3 == 0 else fd.create(algo), "doe", st2, grad=grad)
@@ -301,64 +317,21 @@ def run_batch(ck: Check, traces, lenient, tag):
     return out
 
 
-# ----------------------------------------------------------------------------- main
+def warm_up(fo, fd):
+    """Lazy imports of the libraries are paid once, here, and not by every forked child of the recording."""
+    rng = random.Random(0)
+    for a in fd.algorithms:
+        fd.create(a)
+    record_opt(fo, 0, "SLSQP", "ineq", False, True, 2, True, "reset", "std", rng)
+    record_opt(fo, 0, "NLOPT_SLSQP", "ineq", False, True, 2, False, None, "nojac", rng)
+    record_multistart_levels(fo, 0, 9, 3, 2, 1)
+    for a in ("CustomDOE", "OT_LHS", "PYDOE_LHS", "LHS"):
+        record_doe(fd, 0, a, "ineq", 3, False, None, "jac", rng)
 
-def run(ck: Check):
-    import time as _time
 
-    rng = random.Random(ck.seed)
-    walls, t0 = {}, _time.time()
-    # ---- 1. the specification satisfies the property (exhaustive, small constants)
-    if ck.thorough:
-        ck.tlc("Driver", model_cfg(points=2, nfuncs=2, maxexec=2, maxn=2), workers=8, timeout=1500,
-               require_actions=ACTIONS + ("KktPass", "KktStop"))
-        # a driver instance reused on another problem, with / without new-iteration observables
-        ck.tlc("Driver", model_cfg(points=2, nfuncs=1, maxexec=2, maxn=2, obss="{FALSE, TRUE}", switch=True),
-               workers=8, timeout=1500, require_actions=ACTIONS + ("SwitchProblem",))
-        ck.tlc("Driver", model_cfg(points=2, nfuncs=1, maxexec=1, maxn=2, composites="{TRUE}"), workers=8,
-               timeout=1500, require_actions=ACTIONS + ("Resume",))
-        ck.tlc("Driver", model_cfg(points=3, nfuncs=1, maxexec=1, maxn=2, nxs="{2, 3}"), workers=8, timeout=1500,
-               require_actions=ACTIONS)
-        # (3 points, 2 functions, budgets 1..3, one execution: 19 594 504 distinct states, all clauses hold;
-        #  32 min on this machine, run by hand once - too long for the tier)
-    else:
-        # two executions, on the same problem or (SwitchProblem) the driver instance reused on another
-        # problem, with / without new-iteration observables
-        ck.tlc("Driver", model_cfg(points=2, nfuncs=1, maxexec=2, maxn=2, obss="{FALSE, TRUE}", switch=True,
-                                   nanpt=False),
-               workers=8, timeout=600, require_actions=ACTIONS + ("KktPass", "KktStop", "SwitchProblem"))
-        # composite algorithms: swallowed stops (Resume), refused per-level budgets (phase "rejected")
-        ck.tlc("Driver", model_cfg(points=2, nfuncs=1, maxexec=1, maxn=2, composites="{TRUE}", nanpt=False),
-               workers=8, timeout=600, require_actions=ACTIONS + ("Resume",))
-        ck.tlc("Driver", model_cfg(points=2, nfuncs=2, maxexec=1, maxn=2), workers=8, timeout=600,
-               require_actions=ACTIONS)
-    # Jacobians not stored: the budget holds under the environment assumption DriverAsksValueWithJacobian ...
-    ck.tlc("Driver", model_cfg(points=2, nfuncs=1, maxexec=1, maxn=2, storejac="{FALSE}", assume=True),
-           workers=8, timeout=600)
-    # ... and TLC documents that without it (Jacobian-only requests, nothing stored) the call budget has no
-    # mechanism; likewise without a database (design observations, not findings)
-    r = ck.tlc("Driver", model_cfg(points=3, nfuncs=1, maxexec=1, maxn=2, storejac="{FALSE}", invs=["Budget"]),
-               workers=1, timeout=600, expect_ok=False, count=False, coverage=False)
-    ck.extra["jac_only_requests_unstored_exceed_call_budget"] = r.violated == "Budget"
-    if r.violated != "Budget":
-        raise MachineryError("expected the documented Budget counterexample with store_jacobian = False")
-    ck.assumptions.append("store_jacobian=False: the call budget relies on the algorithm asking a Jacobian only where "
-                          "it asked the value (DriverAsksValueWithJacobian); TLC exhibits the counterexample without it")
-    ck.assumptions.append("use_database=False: gemseo has no budget mechanism (no entries, counter never incremented); "
-                          "such runs are validated for AlwaysResult and the protocol only")
-
-    walls["1_model_checking"] = round(_time.time() - t0, 1)
-    # ---- 2. code -> spec: every algorithm of the two factories
-    import logging
-    import warnings
-
-    logging.disable(logging.CRITICAL)
-    warnings.filterwarnings("ignore")
-    from gemseo.algos.doe.factory import DOELibraryFactory
-    from gemseo.algos.opt.factory import OptimizationLibraryFactory
-
-    fo, fd = OptimizationLibraryFactory(), DOELibraryFactory()
-    cases, skipped = opt_cases(ck, fo)
+def make_plan(ck: Check, cases, fd, rng, skipped):
+    """The recorded runs of the tier: (family, algorithm, problem class, linear, gradient-based, budget,
+    normalisation, second execution, variant) tuples; the size of the full plan."""
     plan = []
     for (algo, kind, linear, grad) in cases:
         for n in BUDGETS:
@@ -378,7 +351,30 @@ def run(ck: Check):
                     continue
                 for n in (3, 5):
                     plan.append(("opt", algo, kind, linear, grad, n, True, "reset", variant))
+    # Jacobians not stored x every gradient-based algorithm (the algorithms that ask a Jacobian at a new iterate
+    # before the value - NLopt - meet the budget test on the Jacobian side only): problem classes x budgets x
+    # normalisation x executions; quick tier: budgets {1, 3}, two executions with counter reset, all of them run
+    always = set()
+    for (algo, kind, linear, grad) in cases:
+        if grad and kind in ("unc", "ineq", "eq"):
+            for n in BUDGETS:
+                for norm in (True, False):
+                    for second in (None, "reset", "noreset"):
+                        c = ("opt", algo, kind, linear, grad, n, norm, second, "nojac")
+                        if c not in plan:
+                            plan.append(c)
+                        if n in (1, 3) and second == "reset" and kind != "eq":
+                            always.add(c)
+    # integer variables that are not rounded (round_ints=False)
+    for (algo, kind, linear, grad) in cases:
+        if kind == "int":
+            for n in (3, 5):
+                for norm in (True, False):
+                    plan.append(("opt", algo, kind, linear, grad, n, norm, "reset", "noround"))
     for algo in fd.algorithms:
+        for norm in (False, True):
+            plan.append(("doe", algo, "int", False, False, 3, norm, "reset", "noround"))
+            plan.append(("doe", algo, "ineq", False, False, 3, norm, "reset", "nojac"))
         for kind in ("ineq", "raise", "nan", "int"):
             for n in BUDGETS:
                 for norm in (False, True):
@@ -402,15 +398,96 @@ def run(ck: Check):
             plan.append(("opt", "MultiStart", "plain", False, False, 9, False, "", ("levels", 3, per_level, n_processes)))
     total_plan = len(plan)
     if not ck.thorough:
-        # every (algorithm, problem class) at least once, then a seeded sample of the rest
+        # every (algorithm, problem class) at least once; every algorithm with and without normalisation,
+        # without database, with Jacobians not stored, with unrounded integers (the driver settings that change
+        # the evaluation path) at least once; the Jacobians-not-stored cases of the gradient-based algorithms;
+        # then a seeded sample of the rest
         rng.shuffle(plan)
         seen, first, rest = set(), [], []
         for c in plan:
-            key = (c[0], c[1], c[2]) if c[8] != "reuse" and not isinstance(c[8], tuple) else c
-            (rest if key in seen else first).append(c)
-            seen.add(key)
-        plan = first + rest[:max(0, 520 - len(first))]
-    traces, refused, runaway = [], {}, {}
+            if c[8] == "reuse" or isinstance(c[8], tuple) or c in always:
+                keys = {c}
+            else:
+                keys = {(c[0], c[1], c[2]), (c[0], c[1], "normalize", c[6])}
+                if c[8] in SETTING_VARIANTS:
+                    keys = {(c[0], c[1], c[8])}
+            (first if keys - seen else rest).append(c)
+            seen |= keys
+        plan = first + rest[:max(0, 560 - len(first))]
+    return plan, total_plan
+
+
+# ----------------------------------------------------------------------------- main
+
+def run(ck: Check):
+    import time as _time
+
+    rng = random.Random(ck.seed)
+    walls, t0 = {}, _time.time()
+    # ---- 1. the specification satisfies the property (exhaustive, small constants)
+    if ck.thorough:
+        ck.tlc("Driver", model_cfg(points=2, nfuncs=2, maxexec=2, maxn=2), workers=W, timeout=1500,
+               require_actions=ACTIONS + ("KktPass", "KktStop"))
+        # a driver instance reused on another problem, with / without new-iteration observables
+        ck.tlc("Driver", model_cfg(points=2, nfuncs=1, maxexec=2, maxn=2, obss="{FALSE, TRUE}", switch=True),
+               workers=W, timeout=1500, require_actions=ACTIONS + ("SwitchProblem",))
+        ck.tlc("Driver", model_cfg(points=2, nfuncs=1, maxexec=1, maxn=2, composites="{TRUE}"), workers=W,
+               timeout=1500, require_actions=ACTIONS + ("Resume",))
+        ck.tlc("Driver", model_cfg(points=3, nfuncs=1, maxexec=1, maxn=2, nxs="{2, 3}"), workers=W, timeout=1500,
+               require_actions=ACTIONS)
+        # (3 points, 2 functions, budgets 1..3, one execution: 19 594 504 distinct states, all clauses hold;
+        #  32 min on this machine, run by hand once - too long for the tier)
+    else:
+        # two executions, on the same problem or (SwitchProblem) the driver instance reused on another
+        # problem, with / without new-iteration observables
+        ck.tlc("Driver", model_cfg(points=2, nfuncs=1, maxexec=2, maxn=2, obss="{FALSE, TRUE}", switch=True,
+                                   nanpt=False),
+               workers=W, timeout=600, require_actions=ACTIONS + ("KktPass", "KktStop", "SwitchProblem"))
+        # composite algorithms: swallowed stops (Resume), refused per-level budgets (phase "rejected")
+        ck.tlc("Driver", model_cfg(points=2, nfuncs=1, maxexec=1, maxn=2, composites="{TRUE}", nanpt=False),
+               workers=W, timeout=600, require_actions=ACTIONS + ("Resume",))
+        ck.tlc("Driver", model_cfg(points=2, nfuncs=2, maxexec=1, maxn=2), workers=W, timeout=600,
+               require_actions=ACTIONS)
+    # Jacobians not stored: the budget (entries AND distinct points of original calls) holds under the
+    # environment assumption DriverCompletesPoint, which includes the gradient-first algorithms (a Jacobian
+    # asked at an unseen point, then the value there): once the budget is spent such a request is answered by
+    # MaxIter, never by an original call ...
+    ck.tlc("Driver", model_cfg(points=2, nfuncs=2, maxexec=1, maxn=2, storejac="{FALSE}", assume="completesPoint"),
+           workers=W, timeout=600, require_actions=ACTIONS)
+    if ck.thorough:
+        ck.tlc("Driver", model_cfg(points=3, nfuncs=1, maxexec=1, maxn=2, storejac="{FALSE}", assume="completesPoint",
+                                   nanpt=False), workers=W, timeout=900, require_actions=ACTIONS)
+        ck.tlc("Driver", model_cfg(points=2, nfuncs=1, maxexec=2, maxn=2, storejac="{TRUE, FALSE}",
+                                   assume="completesPoint", nanpt=False), workers=W, timeout=900,
+               require_actions=ACTIONS)
+    # ... and TLC documents that without it (Jacobian-only requests, nothing stored) the call budget has no
+    # mechanism; likewise without a database (design observations, not findings)
+    r = ck.tlc("Driver", model_cfg(points=3, nfuncs=1, maxexec=1, maxn=2, storejac="{FALSE}", invs=["Budget"]),
+               workers=1, timeout=600, expect_ok=False, count=False, coverage=False)
+    ck.extra["jac_only_requests_unstored_exceed_call_budget"] = r.violated == "Budget"
+    if r.violated != "Budget":
+        raise MachineryError("expected the documented Budget counterexample with store_jacobian = False")
+    ck.assumptions.append("store_jacobian=False: the call budget relies on the algorithm asking the value at every point "
+                          "where it asks a Jacobian, before or after (DriverCompletesPoint, model checking only: recorded "
+                          "runs are validated without any assumption); TLC exhibits the counterexample without it")
+    ck.assumptions.append("use_database=False: gemseo has no budget mechanism (no entries, counter never incremented); "
+                          "such runs are validated for AlwaysResult and the protocol only")
+
+    walls["1_model_checking"] = round(_time.time() - t0, 1)
+    # ---- 2. code -> spec: every algorithm of the two factories
+    import logging
+    import warnings
+
+    logging.disable(logging.CRITICAL)
+    warnings.filterwarnings("ignore")
+    from gemseo.algos.doe.factory import DOELibraryFactory
+    from gemseo.algos.opt.factory import OptimizationLibraryFactory
+
+    fo, fd = OptimizationLibraryFactory(), DOELibraryFactory()
+    cases, skipped = opt_cases(ck, fo)
+    plan, total_plan = make_plan(ck, cases, fd, rng, skipped)
+    traces, refused, runaway, killed = [], {}, {}, {}
+    warm_up(fo, fd)
     for tid, c in enumerate(plan, 1):
         fam, algo, kind, linear, grad, n, norm, second, variant = c
         if os.environ.get("C03_DEBUG"):
@@ -418,17 +495,30 @@ def run(ck: Check):
         if algo in runaway:
             runaway[algo] += 1
             continue
-        try:
+        def one(tid=tid, c=c):
+            fam, algo, kind, linear, grad, n, norm, second, variant = c
+            crng = random.Random(f"{ck.seed}/{tid}")
             if isinstance(variant, tuple):
-                t = record_multistart_levels(fo, tid, n, *variant[1:])
-            elif variant == "reuse":
-                t = record_reuse(fo, fd, tid, fam, algo, kind, linear, grad, n, norm, rng)
-            elif fam == "opt":
-                t = record_opt(fo, tid, algo, kind, linear, grad, n, norm, second, variant, rng)
-            else:
-                t = record_doe(fd, tid, algo, kind, n, norm, second, variant, rng)
-        except Exception as ex:  # noqa: BLE001  (harness-side failure to set the case up)
-            refused[f"{algo}/{kind}"] = f"set-up: {type(ex).__name__}: {str(ex)[:80]}"
+                return record_multistart_levels(fo, tid, n, *variant[1:])
+            if variant == "reuse":
+                return record_reuse(fo, fd, tid, fam, algo, kind, linear, grad, n, norm, crng)
+            if fam == "opt":
+                return record_opt(fo, tid, algo, kind, linear, grad, n, norm, second, variant, crng)
+            return record_doe(fd, tid, algo, kind, n, norm, second, variant, crng)
+
+        # each case in a child process: a run that does not come back from a compiled library is killed
+        status, t = R.isolated(one)
+        if status == "error":             # harness-side failure to set the case up
+            refused[f"{algo}/{kind}"] = f"set-up: {t}"
+            continue
+        if status in ("killed", "died"):
+            meta = dict(kind=fam, algo=algo, problem=kind + ("-lin" if linear else ""), N=n, normalize=norm,
+                        second=second or "", variant=variant if isinstance(variant, str) else "levels")
+            t = R.unreturned_trace(tid, meta, fam, "Runaway" if status == "killed" else "ProcessDied",
+                                   f"no return after {t} s of CPU time" if status == "killed" else f"wait status {t}")
+            killed[algo] = killed.get(algo, 0) + 1
+            runaway[algo] = 0        # reported once; its other cases are not run
+            traces.append(t)
             continue
         if t is None:
             refused[f"{algo}"] = "no settings known for this algorithm on a 2-variable space"
@@ -451,8 +541,50 @@ def run(ck: Check):
     ck.extra["algorithms_run"] = sorted({t["meta"]["algo"] for t in traces})
     ck.extra["algorithms_skipped"] = skipped
     ck.extra["cases_dropped_after_a_run_that_did_not_stop"] = runaway
+    ck.extra["runs_killed_after_the_cpu_limit"] = killed
     ck.extra["combinations_refused"] = dict(sorted(refused.items())[:60])
     ck.extra["stop_classes_seen"] = sorted({e["cause"] for t in traces for e in t["events"] if e["ev"] == "end"})
+    # what ran of the driver settings that change the evaluation path, per family (library class) of algorithms
+    family = {a: type(f.create(a)).__name__ for f in (fo, fd) for a in f.algorithms}
+    settings_seen = {}
+    for t in traces:
+        m = t["meta"]
+        fam = settings_seen.setdefault(family.get(m["algo"], m["algo"]), {})
+        for name in ("normalize_design_space=" + str(bool(m["normalize"])),
+                     {"nodb": "use_database=False", "nojac": "store_jacobian=False",
+                      "noround": "round_ints=False"}.get(m["variant"], "")):
+            if name:
+                fam[name] = fam.get(name, 0) + 1
+    ck.extra["driver_settings_recorded_by_family"] = {k: dict(sorted(v.items())) for k, v in sorted(settings_seen.items())}
+    # Jacobians not stored x gradient-based algorithms: runs, runs stopped by the budget, and requests of a
+    # Jacobian at a point without entry (gradient-first algorithms) that the traces contain
+    nojac = {}
+    for t in traces:
+        m = t["meta"]
+        if m["variant"] != "nojac" or m["kind"] != "opt" or not any(e["ev"] == "exec" and e["grad"] for e in t["events"]):
+            continue
+        d = nojac.setdefault(m["algo"], {"runs": 0, "executions_ended_with_the_budget_spent": 0,
+                                         "jacobian_first_requests": 0})
+        d["runs"] += 1
+        stored, budget = set(), 0
+        for e in t["events"]:
+            if e["ev"] == "exec":
+                budget = e["N"]
+            elif e["ev"] == "end":
+                d["executions_ended_with_the_budget_spent"] += int(e["cur"] >= budget)    # counter at its maximum
+            elif e["ev"] in ("switch",):
+                stored = set()
+            elif e["ev"] == "store":
+                stored.add(e["p"])
+            elif e["ev"] == "orig" and e["kind"] == "jac" and e["p"] not in stored:
+                d["jacobian_first_requests"] += 1
+    ck.extra["jacobians_not_stored_gradient_based"] = dict(sorted(nojac.items()))
+    grad_algos = sorted({c[0] for c in cases if c[3]})
+    missing = [a for a in grad_algos if a not in nojac]
+    if missing:
+        raise MachineryError(f"gradient-based algorithms without a recorded run with store_jacobian=False: {missing}")
+    if not sum(d["jacobian_first_requests"] for d in nojac.values() if d["executions_ended_with_the_budget_spent"]):
+        raise MachineryError("no recorded run with store_jacobian=False asks a Jacobian first and spends its budget")
     if len(ck.extra["algorithms_run"]) < 40:
         raise MachineryError(f"only {len(ck.extra['algorithms_run'])} algorithms produced a trace")
     # ---- 3. spec -> code: scripted environment
